@@ -245,7 +245,6 @@ package socks5
 //@   ghost_call Server.handleAuthentication: ghost(authres) = ite(result0 == nil, 1, 2)
 //@   assert_call Server.readRequest: [C11] s.config.AuthOpts.ClientSideAuthentication || ghost(authres) == 1
 
-
 //@ // Egress rules (C12: "configured egress rules are applied in order, first match wins"):
 //@ // a rule applies exactly when ruleMatches says so, and the action taken is the action of the
 //@ // first rule that applies - DIRECT when none does.
@@ -282,4 +281,3 @@ package socks5
 //@   loop 2:
 //@     modifies nothing
 //@     invariant -1 <= rangeindex__2 && rangeindex__2 < 9223372036854775807
-
